@@ -411,7 +411,7 @@ func c07Gen(t *rapid.T) vmCase {
 		c.Ctx.TxVersion = u64p(2)
 	}
 	var prog []byte
-	if rapid.IntRange(0, 9).Draw(t, "kind") <= 2 {
+	if rapid.SampledFrom([]int{1, 1, 1, 0, 1, 1, 1, 1, 0, 1}).Draw(t, "kind") == 0 {
 		c.Note = "arbitrary-bytes"
 		prog = rapid.SliceOfN(rapid.Byte(), 0, 300).Draw(t, "rawprog")
 	} else {
@@ -438,14 +438,15 @@ func c07Gen(t *rapid.T) vmCase {
 		c.State = hexList([][]byte{genItem(t, "state0")})
 	}
 	// gas limit
-	switch k := rapid.IntRange(0, 99).Draw(t, "gask"); {
-	case k < 5:
+	gasKinds := []int{0, 1, 2, 2, 2, 3, 3, 3, 3, 3, 3, 3, 3, 4, 4, 4, 4, 4, 4, 4, 4, 4, 4, 5, 5, 6}
+	switch k := gasKinds[rapid.IntRange(0, len(gasKinds)-1).Draw(t, "gask")]; {
+	case k == 0:
 		c.Gas = 0
-	case k < 10:
+	case k == 1:
 		c.Gas = 1
-	case k < 25:
+	case k == 2:
 		c.Gas = int64(rapid.IntRange(2, 300).Draw(t, "gassmall"))
-	case k < 55: // exact need of the run -1 / 0 / +1
+	case k == 3: // exact need of the run -1 / 0 / +1
 		probe := c
 		probe.Gas = 1 << 40
 		res, _ := runRef(&probe, refvm.Options{MaxSteps: 3000})
@@ -457,15 +458,15 @@ func c07Gen(t *rapid.T) vmCase {
 				c.Gas = 0
 			}
 		}
-	case k < 90:
+	case k == 4:
 		c.Gas = int64(rapid.IntRange(300, 12000).Draw(t, "gasmed"))
-	case k < 98:
+	case k == 5:
 		c.Gas = int64(rapid.IntRange(12000, 60000).Draw(t, "gasbig"))
 	default:
 		c.Gas = 300000 // consensus maximum
 	}
 	if c.Gas > 3000 { // keep the printed trace manageable
-		if res, _ := runRef(&c, refvm.Options{}); dumpLines(res) > 1500000 {
+		if res, _ := runRef(&c, refvm.Options{MaxWork: 200000}); res.Truncated || dumpLines(res) > 200000 {
 			c.Gas = int64(rapid.IntRange(300, 3000).Draw(t, "gascut"))
 		}
 	}
@@ -539,7 +540,7 @@ func c07Exec(c vmCase, x *pbt.Ctx) error {
 	}
 
 	// (d) and the non-triviality rule use the reference model
-	res, _ := runRef(&c, refvm.Options{})
+	res, _ := runRef(&c, refvm.Options{MaxWork: 4000000})
 	pops, back, child := 0, false, false
 	for _, st := range res.Steps {
 		pops += st.Pops
